@@ -1,4 +1,813 @@
-//! groupcrdt: not built yet.
-pub fn run(args: &vh_common::Args) {
-    vh_common::unknown(args)
+//! GroupAuth (C31, C33): the real `GroupCrdt<.., StrongRemove>` against spec/GroupAuth/GroupAuth.tla.
+//!
+//! * `replay`: every history TLC exported (operation DAG + the members the specification computes
+//!   for every down-closed view + the attempts validation accepts) is delivered to real replicas in
+//!   EVERY causal order. Oracle 1: replicas that processed the same set of operations agree and
+//!   repeated queries agree. Oracle 2: members / access equal the specification's view. C33: every
+//!   attempt (author, action) of the alphabet is processed at every view; the verdict must equal the
+//!   specification's and an accepted attempt must be authorized in the replica's own state at the
+//!   attempt's dependencies.
+//! * `record`: seeded random histories on the real code (several actors with their own replicas,
+//!   authorized and unauthorized attempts, optional conditions), every replica delivering in its own
+//!   random causal order, one event per spec action for `Trace_GroupAuth.tla`; plus larger histories
+//!   with nested groups and conditions checked by oracle 1 only (outside the specified fragment).
+use std::collections::{BTreeMap, BTreeSet, HashMap};
+
+use p2panda_auth::group::resolver::StrongRemove;
+use p2panda_auth::group::{GroupAction, GroupCrdt, GroupCrdtState, GroupMember};
+use p2panda_auth::traits::Operation;
+use serde::{Deserialize, Serialize};
+use vh_common::{Args, Outcome, Rng, TraceWriter, Value, catch, json, read_ndjson, unknown};
+
+use crate::groupmerge::{Cond, access, access_proj};
+
+#[derive(Clone, Debug, Serialize, Deserialize)]
+pub struct VOp {
+    pub id: u32,
+    pub author: char,
+    pub deps: Vec<u32>,
+    pub group: char,
+    pub action: GroupAction<char, Cond>,
+}
+
+impl Operation<char, u32, Cond> for VOp {
+    fn id(&self) -> u32 {
+        self.id
+    }
+    fn author(&self) -> char {
+        self.author
+    }
+    fn dependencies(&self) -> Vec<u32> {
+        self.deps.clone()
+    }
+    fn group_id(&self) -> char {
+        self.group
+    }
+    fn action(&self) -> GroupAction<char, Cond> {
+        self.action.clone()
+    }
+}
+
+type Resolver = StrongRemove<char, u32, VOp, Cond>;
+type Crdt = GroupCrdt<char, u32, VOp, Cond, Resolver>;
+type State = GroupCrdtState<char, u32, VOp, Cond>;
+
+const G: char = 'G';
+
+/// member -> (condition or -1, level)
+type MView = BTreeMap<char, (i64, u8)>;
+
+pub fn run(args: &Args) {
+    match args.mode.as_str() {
+        "replay" => replay(args),
+        "record" => record(args),
+        _ => unknown(args),
+    }
+}
+
+fn ch(v: &Value) -> char {
+    v.as_str().expect("string").chars().next().expect("non-empty")
+}
+
+fn process(y: &State, op: &VOp) -> Result<Result<State, String>, String> {
+    catch(|| Crdt::process(y.clone(), op).map_err(|e| e.to_string()))
+}
+
+fn members_view(y: &State, group: char) -> MView {
+    y.members(group).into_iter().map(|(m, a)| (m, access_proj(&a))).collect()
+}
+
+fn root_view(y: &State, group: char) -> BTreeMap<(bool, char), (i64, u8)> {
+    y.root_members(group).into_iter().map(|(m, a)| ((m.is_group(), m.id()), access_proj(&a))).collect()
+}
+
+/// Repeated queries on one replica must agree (C31, second half). Returns the view or the two
+/// differing answers.
+fn stable_view(y: &State, group: char) -> Result<MView, (MView, MView)> {
+    let first = members_view(y, group);
+    for _ in 0..4 {
+        let again = members_view(y, group);
+        if again != first {
+            return Err((first, again));
+        }
+    }
+    let r1 = root_view(y, group);
+    for _ in 0..2 {
+        if root_view(y, group) != r1 {
+            return Err((first.clone(), first));
+        }
+    }
+    Ok(first)
+}
+
+fn view_json(v: &MView) -> Value {
+    Value::Array(v.iter().map(|(m, (c, l))| json!({"m": m.to_string(), "c": c, "l": l})).collect())
+}
+
+fn view_from_json(v: &Value) -> MView {
+    v.as_array()
+        .map(|a| a.iter().map(|e| (ch(&e["m"]), (e["c"].as_i64().unwrap(), e["l"].as_u64().unwrap() as u8))).collect())
+        .unwrap_or_default()
+}
+
+fn action_of(kind: &str, member: char, c: i64, l: u64) -> GroupAction<char, Cond> {
+    let member = GroupMember::Individual(member);
+    match kind {
+        "add" => GroupAction::Add { member, access: access(c, l) },
+        "remove" => GroupAction::Remove { member },
+        "promote" => GroupAction::Promote { member, access: access(c, l) },
+        "demote" => GroupAction::Demote { member, access: access(c, l) },
+        k => panic!("unknown kind {k}"),
+    }
+}
+
+/// The authorization the property demands, evaluated on the replica's own view at the dependencies.
+fn authorized(view: &MView, author: char, kind: &str, member: char) -> bool {
+    let manager = view.get(&author).is_some_and(|a| a.1 == 3);
+    let target_active = view.contains_key(&member);
+    match kind {
+        "add" => manager && !target_active,
+        "remove" => target_active && (manager || (author == member && view.contains_key(&author))),
+        _ => manager && target_active,
+    }
+}
+
+/// Reports a violation and keeps a per-signature tally (the violation list itself is capped).
+fn viol(out: &mut Outcome, property: &str, signature: &str, detail: String, case: Value) {
+    out.count(&format!("violation:{signature}"));
+    out.violation(property, signature, detail, case);
+}
+
+struct History {
+    ops: Vec<(VOp, bool)>,                 // (operation, spec verdict); index = id - 1
+    views: HashMap<Vec<u32>, MView>,        // sorted ids of a down-closed view -> spec members
+    accepts: BTreeSet<(char, String, char, i64, u64)>,
+    actors: Vec<char>,
+    kinds: Vec<String>,
+    accs: Vec<(i64, u64)>,
+}
+
+fn parse_history(b: &Value) -> History {
+    let initial: Vec<(GroupMember<char>, _)> = b["initial"]
+        .as_array()
+        .expect("initial")
+        .iter()
+        .map(|e| (GroupMember::Individual(ch(&e["m"])), access(e["c"].as_i64().unwrap(), e["l"].as_u64().unwrap())))
+        .collect();
+    let mut ops = Vec::new();
+    for o in b["ops"].as_array().expect("ops") {
+        let kind = o["kind"].as_str().unwrap();
+        let action = if kind == "create" {
+            GroupAction::Create { initial_members: initial.clone() }
+        } else {
+            action_of(kind, ch(&o["member"]), o["c"].as_i64().unwrap(), o["l"].as_u64().unwrap())
+        };
+        ops.push((
+            VOp {
+                id: o["id"].as_u64().unwrap() as u32,
+                author: ch(&o["author"]),
+                deps: o["deps"].as_array().map(|d| d.iter().map(|x| x.as_u64().unwrap() as u32).collect()).unwrap_or_default(),
+                group: G,
+                action,
+            },
+            o["ok"].as_bool().unwrap(),
+        ));
+    }
+    let mut views = HashMap::new();
+    for v in b["views"].as_array().expect("views") {
+        let d: Vec<u32> = v["d"].as_array().unwrap().iter().map(|x| x.as_u64().unwrap() as u32).collect();
+        views.insert(d, view_from_json(&v["members"]));
+    }
+    let accepts = b["accepts"]
+        .as_array()
+        .map(|a| {
+            a.iter()
+                .map(|e| (ch(&e["a"]), e["k"].as_str().unwrap().to_string(), ch(&e["m"]), e["c"].as_i64().unwrap(), e["l"].as_u64().unwrap()))
+                .collect()
+        })
+        .unwrap_or_default();
+    History {
+        ops,
+        views,
+        accepts,
+        actors: b["actors"].as_array().unwrap().iter().map(ch).collect(),
+        kinds: b["kinds"].as_array().unwrap().iter().map(|k| k.as_str().unwrap().to_string()).collect(),
+        accs: b["accs"].as_array().unwrap().iter().map(|a| (a["c"].as_i64().unwrap(), a["l"].as_u64().unwrap())).collect(),
+    }
+}
+
+/// Canonical key of the sub-history `d` (sorted ids): operations renumbered 1..|d| in id order.
+fn history_key(ops: &[(VOp, bool)], d: &[u32]) -> String {
+    let renum: HashMap<u32, usize> = d.iter().enumerate().map(|(i, id)| (*id, i + 1)).collect();
+    let mut parts = Vec::new();
+    for id in d {
+        let op = &ops[*id as usize - 1].0;
+        let mut deps: Vec<usize> = op.deps.iter().map(|x| renum[x]).collect();
+        deps.sort();
+        parts.push(format!("{}:{:?}:{}", op.author, deps, serde_json::to_string(&op.action).unwrap()));
+    }
+    parts.join(";")
+}
+
+fn heads_of(ops: &[(VOp, bool)], d: &[u32]) -> Vec<u32> {
+    d.iter().copied().filter(|id| !d.iter().any(|p| ops[*p as usize - 1].0.deps.contains(id))).collect()
+}
+
+struct Explorer<'a> {
+    h: &'a History,
+    case: &'a Value,
+    accepted: Vec<u32>,
+    /// real view of the first replica that reached a given set of operations
+    seen: HashMap<Vec<u32>, MView>,
+    leaves: Vec<State>,
+    process_calls: u64,
+    extensions: u64,
+    failed: bool,
+}
+
+impl Explorer<'_> {
+    /// Depth-first over all causal delivery orders of the accepted operations.
+    fn explore(&mut self, y: &State, done: &mut Vec<u32>, out: &mut Outcome) {
+        if self.failed {
+            return;
+        }
+        let mut key = done.clone();
+        key.sort();
+        // --- observables of the replica that has processed exactly `key`
+        if !key.is_empty() {
+            let real = match catch(|| stable_view(y, G)) {
+                Err(p) => {
+                    viol(out, "C31", "query-panics", p, self.case.clone());
+                    self.failed = true;
+                    return;
+                }
+                Ok(Err((v1, v2))) => {
+                    viol(out, 
+                        "C31",
+                        "query-unstable",
+                        format!("repeated members() on one replica after {done:?}: {v1:?} then {v2:?}"),
+                        self.case.clone(),
+                    );
+                    self.failed = true;
+                    return;
+                }
+                Ok(Ok(v)) => v,
+            };
+            match self.seen.get(&key) {
+                Some(other) if other != &real => {
+                    viol(out, 
+                        "C31",
+                        "replicas-diverge",
+                        format!("two replicas processed {key:?} in different causal orders (one of them {done:?}): {other:?} vs {real:?}"),
+                        self.case.clone(),
+                    );
+                    self.failed = true;
+                    return;
+                }
+                Some(_) => {}
+                None => {
+                    // oracle 2, once per set
+                    match self.h.views.get(&key) {
+                        Some(spec) if spec != &real => {
+                            viol(out, 
+                                "C31",
+                                "view-differs-from-spec",
+                                format!("after {done:?}: replica reports {real:?}, specification says {spec:?}"),
+                                self.case.clone(),
+                            );
+                            self.failed = true;
+                            return;
+                        }
+                        Some(_) => {}
+                        None => {
+                            eprintln!("history line lacks the view {key:?}: {}", self.case);
+                            std::process::exit(2);
+                        }
+                    }
+                    self.seen.insert(key.clone(), real);
+                }
+            }
+        }
+        if done.len() == self.accepted.len() {
+            self.extensions += 1;
+            if self.leaves.len() < 2 {
+                self.leaves.push(y.clone());
+            } else {
+                self.leaves[1] = y.clone();
+            }
+            return;
+        }
+        for id in self.accepted.clone() {
+            if done.contains(&id) {
+                continue;
+            }
+            let op = &self.h.ops[id as usize - 1].0;
+            if !op.deps.iter().all(|d| done.contains(d)) {
+                continue;
+            }
+            self.process_calls += 1;
+            match process(y, op) {
+                Err(p) => {
+                    viol(out, "C33", "process-panics", format!("processing op {id} after {done:?}: {p}"), self.case.clone());
+                    self.failed = true;
+                    return;
+                }
+                Ok(Err(e)) => {
+                    viol(out, 
+                        "C33",
+                        "valid-operation-rejected",
+                        format!("op {id} (valid at its dependencies per the specification) refused after {done:?}: {e}"),
+                        self.case.clone(),
+                    );
+                    self.failed = true;
+                    return;
+                }
+                Ok(Ok(next)) => {
+                    done.push(id);
+                    self.explore(&next, done, out);
+                    done.pop();
+                }
+            }
+        }
+    }
+}
+
+fn replay(args: &Args) {
+    let cases = read_ndjson(args.input.as_ref().expect("--in"));
+    let mut out = Outcome::new(
+        args,
+        "every TLC-exported history delivered to the real GroupCrdt in every causal order (members/access after every \
+         prefix vs. other replicas, vs. repeated queries and vs. the specification's view), every attempt of the alphabet \
+         processed at every down-closed view (verdict vs. specification, authorization vs. the replica's own state); \
+         non-trivial = history with concurrent operations; distinct by history",
+    );
+    let attempts_every = args.extra_usize("attempts-every", 1);
+    // `--focus c31`: delivery orders, views and query stability only (the attempts belong to C33)
+    let focus_c31 = args.extra.get("focus").is_some_and(|f| f == "c31");
+    // accepted-attempt tables by canonical history key (for views smaller than the whole history)
+    let mut tables: HashMap<String, BTreeSet<(char, String, char, i64, u64)>> = HashMap::new();
+    let parsed: Vec<History> = cases.iter().map(parse_history).collect();
+    for h in &parsed {
+        if h.ops.iter().all(|(_, ok)| *ok) {
+            let d: Vec<u32> = h.ops.iter().map(|(o, _)| o.id).collect();
+            tables.insert(history_key(&h.ops, &d), h.accepts.clone());
+        }
+    }
+    for (n, (b, h)) in cases.iter().zip(parsed.iter()).enumerate() {
+        out.eval();
+        let accepted: Vec<u32> = h.ops.iter().filter(|(_, ok)| *ok).map(|(o, _)| o.id).collect();
+        let mut ex = Explorer { h, case: b, accepted: accepted.clone(), seen: HashMap::new(), leaves: Vec::new(), process_calls: 0, extensions: 0, failed: false };
+        let init = Crdt::init();
+        ex.explore(&init, &mut Vec::new(), &mut out);
+        out.count_by("process_calls", ex.process_calls);
+        out.count_by("causal_orders", ex.extensions);
+        if ex.extensions > 1 {
+            out.mark_distinct(b["ops"].to_string());
+        }
+        if ex.failed {
+            continue;
+        }
+        // --- operations the specification refuses: every replica that has the dependencies refuses them too
+        for (op, ok) in &h.ops {
+            if *ok {
+                continue;
+            }
+            for leaf in &ex.leaves {
+                match process(leaf, op) {
+                    Err(p) => viol(&mut out, "C33", "process-panics", p, b.clone()),
+                    Ok(Ok(_)) => viol(&mut out, "C33", "invalid-operation-accepted", format!("op {} accepted, specification refuses it", op.id), b.clone()),
+                    Ok(Err(_)) => out.count("refused_ops"),
+                }
+            }
+        }
+        // --- C33: the whole alphabet of attempts at every view
+        if n % attempts_every != 0 || focus_c31 {
+            continue;
+        }
+        let mut views: Vec<Vec<u32>> = h.views.keys().cloned().collect();
+        views.sort();
+        let full = { let mut a = accepted.clone(); a.sort(); a };
+        for (li, leaf) in ex.leaves.iter().enumerate() {
+            for d in &views {
+                if li > 0 && d != &full {
+                    continue; // smaller views (validation by rebuild) on one replica only
+                }
+                let table = if d == &full { Some(&h.accepts) } else { tables.get(&history_key(&h.ops, d)) };
+                let Some(table) = table else {
+                    out.count("attempt_views_without_table");
+                    continue;
+                };
+                let deps = heads_of(&h.ops, d);
+                let view_at_d = &ex.seen[d];
+                let mut next_id = 9000;
+                for author in &h.actors {
+                    for kind in &h.kinds {
+                        for member in &h.actors {
+                            let accs: Vec<(i64, u64)> = if kind == "remove" { vec![(-1, 0)] } else { h.accs.clone() };
+                            for (c, l) in accs {
+                                next_id += 1;
+                                let op = VOp { id: next_id, author: *author, deps: deps.clone(), group: G, action: action_of(kind, *member, c, l) };
+                                let expect = table.contains(&(*author, kind.clone(), *member, c, l));
+                                let attempt = json!({"at": d, "author": author.to_string(), "kind": kind, "member": member.to_string(), "c": c, "l": l});
+                                let got = match process(leaf, &op) {
+                                    Err(p) => {
+                                        viol(&mut out, "C33", "process-panics", format!("attempt {attempt}: {p}"), b.clone());
+                                        continue;
+                                    }
+                                    Ok(r) => r.is_ok(),
+                                };
+                                out.count(if got { "attempts_accepted" } else { "attempts_refused" });
+                                if got && !authorized(view_at_d, *author, kind, *member) {
+                                    let noop = kind == "promote" || kind == "demote";
+                                    viol(&mut out, 
+                                        "C33",
+                                        if noop { "unauthorized-accepted:noop-promote-demote" } else { "unauthorized-accepted" },
+                                        format!("attempt {attempt} accepted although in the replica's state at its dependencies ({view_at_d:?}) the author is not an active manager / the action is not valid"),
+                                        b.clone(),
+                                    );
+                                }
+                                if got != expect {
+                                    viol(&mut out, 
+                                        "C33",
+                                        "verdict-differs-from-spec",
+                                        format!("attempt {attempt}: replica {} it, specification {} it", if got { "accepts" } else { "refuses" }, if expect { "accepts" } else { "refuses" }),
+                                        b.clone(),
+                                    );
+                                }
+                            }
+                        }
+                    }
+                }
+            }
+        }
+        // --- adversarial attempts at the view of all operations: another group's id, a second create
+        let deps = heads_of(&h.ops, &full);
+        for leaf in &ex.leaves {
+            let mut next_id = 20000;
+            for author in &h.actors {
+                // (a) an action in a group that does not exist at the dependencies
+                let mut kinds: Vec<String> = h.kinds.clone();
+                kinds.push("create".to_string());
+                for kind in &kinds {
+                    let Some(expect) = b["foreign"][kind.as_str()].as_bool() else { continue };
+                    next_id += 1;
+                    let action = if kind == "create" {
+                        GroupAction::Create { initial_members: vec![(GroupMember::Individual(*author), access(-1, 3))] }
+                    } else {
+                        action_of(kind, h.actors[0], -1, 1)
+                    };
+                    let op = VOp { id: next_id, author: *author, deps: deps.clone(), group: 'H', action };
+                    let attempt = json!({"group": "H (does not exist)", "author": author.to_string(), "kind": kind});
+                    match process(leaf, &op) {
+                        Err(p) => viol(&mut out, "C33", "process-panics:unknown-group", format!("attempt {attempt}: {p}"), b.clone()),
+                        Ok(r) if r.is_ok() != expect => viol(
+                            &mut out,
+                            "C33",
+                            "unknown-group-verdict-differs-from-spec",
+                            format!("attempt {attempt}: replica {} it", if r.is_ok() { "accepts" } else { "refuses" }),
+                            b.clone(),
+                        ),
+                        Ok(_) => out.count("foreign_group_attempts"),
+                    }
+                }
+                // (b) a second create for the existing group
+                if let Some(expect) = b["recreate"].as_bool() {
+                    next_id += 1;
+                    let op = VOp {
+                        id: next_id,
+                        author: *author,
+                        deps: deps.clone(),
+                        group: G,
+                        action: GroupAction::Create { initial_members: vec![(GroupMember::Individual(*author), access(-1, 3))] },
+                    };
+                    match process(leaf, &op) {
+                        Err(p) => viol(&mut out, "C33", "process-panics", format!("second create by {author}: {p}"), b.clone()),
+                        Ok(Ok(after)) if !expect => {
+                            let before = members_view(leaf, G);
+                            let now = members_view(&after, G);
+                            viol(
+                                &mut out,
+                                "C33",
+                                "unauthorized-accepted:create-existing-group",
+                                format!("a second create for the existing group by {author} (view before {before:?}) was accepted; members afterwards {now:?}"),
+                                b.clone(),
+                            );
+                        }
+                        Ok(Err(_)) if expect => viol(&mut out, "C33", "verdict-differs-from-spec", format!("second create by {author} refused, specification accepts it"), b.clone()),
+                        Ok(_) => out.count("recreate_attempts"),
+                    }
+                }
+            }
+        }
+        out.sample(json!({"ops": b["ops"], "causal_orders": ex.extensions}));
+    }
+    out.write(args);
+}
+
+// ------------------------------------------------------------------------------------------ record
+
+fn random_access(rng: &mut Rng, conds: bool) -> (i64, u64) {
+    let c = if conds && rng.chance(1, 2) { rng.below(3) as i64 } else { -1 };
+    (c, rng.below(4))
+}
+
+/// One replica of the traced runs.
+struct Rep {
+    name: &'static str,
+    y: State,
+    seen: BTreeSet<u32>,     // processed (accepted or refused)
+    have: BTreeSet<u32>,     // accepted
+}
+
+/// Processes `op` at `rep`, emits the Deliver event, returns the verdict (None on panic).
+fn deliver(rep: &mut Rep, op: &VOp, trace: &mut TraceWriter, out: &mut Outcome, ctx: &Value) -> Option<bool> {
+    out.eval();
+    let verdict = match process(&rep.y, op) {
+        Err(p) => {
+            viol(out, "C33", "process-panics", format!("replica {} processing op {}: {p}", rep.name, op.id), ctx.clone());
+            return None;
+        }
+        Ok(Ok(next)) => {
+            rep.y = next;
+            rep.have.insert(op.id);
+            true
+        }
+        Ok(Err(_)) => false,
+    };
+    rep.seen.insert(op.id);
+    let view = match catch(|| stable_view(&rep.y, G)) {
+        Ok(Ok(v)) => v,
+        Ok(Err((v1, v2))) => {
+            viol(out, "C31", "query-unstable", format!("replica {}: repeated members() {v1:?} then {v2:?}", rep.name), ctx.clone());
+            v1
+        }
+        Err(p) => {
+            viol(out, "C31", "query-panics", p, ctx.clone());
+            return None;
+        }
+    };
+    trace.event(json!({"ev": "Deliver", "r": rep.name, "o": op.id, "ok": verdict, "members": view_json(&view)}));
+    Some(verdict)
+}
+
+/// A traced run inside the specified fragment: one group, individual members.
+fn traced_run(run: usize, rng: &mut Rng, trace: &mut TraceWriter, out: &mut Outcome) {
+    let conds = run % 3 == 2;
+    let pool: Vec<char> = "abcdef".chars().take(rng.range(4, 6) as usize).collect();
+    let k = rng.range(2, 4) as usize;
+    let mut initial = Vec::new();
+    let mut init_json = serde_json::Map::new();
+    for (j, m) in pool.iter().take(k).enumerate() {
+        let (c, l) = if j == 0 || rng.chance(1, 3) { (-1, 3) } else { random_access(rng, conds) };
+        initial.push((GroupMember::Individual(*m), access(c, l)));
+        init_json.insert(m.to_string(), json!({"c": c, "l": l}));
+    }
+    trace.event(json!({"ev": "Reset", "run": run, "creator": "a", "initial": Value::Object(init_json)}));
+    let mut ops: Vec<(VOp, bool)> = vec![(VOp { id: 1, author: 'a', deps: vec![], group: G, action: GroupAction::Create { initial_members: initial } }, true)];
+    let mut reps: Vec<Rep> = ["r1", "r2", "r3"].iter().map(|n| Rep { name: n, y: Crdt::init(), seen: BTreeSet::new(), have: BTreeSet::new() }).collect();
+    let ctx = json!({"run": run, "seed_note": "re-run `record` with the same --seed"});
+    let n_ops = rng.range(3, 9);
+    let mut published = 0;
+    let mut guard = 0;
+    while published < n_ops && guard < 200 {
+        guard += 1;
+        let ri = rng.below(3) as usize;
+        // a replica publishes only after it has the create
+        if !reps[ri].seen.contains(&1) {
+            let op = ops[0].0.clone();
+            if deliver(&mut reps[ri], &op, trace, out, &ctx).is_none() { return; }
+            continue;
+        }
+        if rng.chance(2, 5) {
+            // deliver some operation this replica is missing and whose dependencies it has
+            let ready: Vec<usize> = (0..ops.len())
+                .filter(|j| !reps[ri].seen.contains(&ops[*j].0.id) && ops[*j].0.deps.iter().all(|d| reps[ri].have.contains(d)))
+                .collect();
+            if !ready.is_empty() {
+                let j = *rng.pick(&ready);
+                let (op, ok) = ops[j].clone();
+                match deliver(&mut reps[ri], &op, trace, out, &ctx) {
+                    None => return,
+                    Some(v) if v != ok => viol(out, "C31", "verdicts-differ", format!("op {} was {} by its publisher and {} by replica {}", op.id, if ok { "accepted" } else { "refused" }, if v { "accepted" } else { "refused" }, reps[ri].name), ctx.clone()),
+                    _ => {}
+                }
+            }
+            continue;
+        }
+        // publish from this replica's view
+        let view = members_view(&reps[ri].y, G);
+        let managers: Vec<char> = view.iter().filter(|(_, a)| a.1 == 3).map(|(m, _)| *m).collect();
+        let author = if !managers.is_empty() && rng.chance(3, 4) { *rng.pick(&managers) } else { *rng.pick(&pool) };
+        let kind = *rng.pick(&["add", "remove", "remove", "promote", "demote"]);
+        let inside: Vec<char> = view.keys().copied().collect();
+        let outside: Vec<char> = pool.iter().copied().filter(|m| !view.contains_key(m)).collect();
+        let plausible = if kind == "add" { &outside } else { &inside };
+        let member = if !plausible.is_empty() && rng.chance(4, 5) { *rng.pick(plausible) } else { *rng.pick(&pool) };
+        let (c, l) = if kind == "remove" { (-1, 0) } else { random_access(rng, conds) };
+        let id = ops.len() as u32 + 1;
+        let mut deps = reps[ri].y.heads();
+        deps.sort();
+        let op = VOp { id, author, deps: deps.clone(), group: G, action: action_of(kind, member, c, l) };
+        out.eval();
+        let ok = match process(&reps[ri].y, &op) {
+            Err(p) => { viol(out, "C33", "process-panics", format!("publishing {op:?}: {p}"), ctx.clone()); return; }
+            Ok(r) => r.is_ok(),
+        };
+        out.count(if ok { "published_accepted" } else { "published_refused" });
+        if ok && !authorized(&view, author, kind, member) {
+            viol(out, "C33", if kind == "promote" || kind == "demote" { "unauthorized-accepted:noop-promote-demote" } else { "unauthorized-accepted" },
+                 format!("{op:?} accepted in view {view:?}"), ctx.clone());
+        }
+        trace.event(json!({"ev": "Publish", "id": id, "author": author.to_string(), "deps": deps, "kind": kind, "member": member.to_string(), "c": c, "l": l, "ok": ok}));
+        ops.push((op.clone(), ok));
+        published += 1;
+        if deliver(&mut reps[ri], &op, trace, out, &ctx).is_none() { return; }
+    }
+    // everybody gets everything, each replica in its own causal order
+    loop {
+        let mut progressed = false;
+        for ri in 0..3 {
+            let ready: Vec<usize> = (0..ops.len())
+                .filter(|j| !reps[ri].seen.contains(&ops[*j].0.id) && ops[*j].0.deps.iter().all(|d| reps[ri].have.contains(d)))
+                .collect();
+            if ready.is_empty() { continue; }
+            progressed = true;
+            let j = *rng.pick(&ready);
+            let (op, ok) = ops[j].clone();
+            match deliver(&mut reps[ri], &op, trace, out, &ctx) {
+                None => return,
+                Some(v) if v != ok => viol(out, "C31", "verdicts-differ", format!("op {} verdict differs at replica {}", op.id, reps[ri].name), ctx.clone()),
+                _ => {}
+            }
+        }
+        if !progressed { break; }
+    }
+    let v0 = members_view(&reps[0].y, G);
+    for r in &reps[1..] {
+        let v = members_view(&r.y, G);
+        if r.have == reps[0].have && v != v0 {
+            viol(out, "C31", "replicas-diverge", format!("same operations {:?}: r1 reports {v0:?}, {} reports {v:?}", r.have, r.name), json!({"run": run, "ops": ops.iter().map(|(o, ok)| json!({"op": o, "ok": ok})).collect::<Vec<_>>()}));
+        }
+    }
+    if ops.iter().any(|(o, _)| o.deps.len() > 1) || ops.len() > 3 {
+        out.mark_distinct(format!("traced-{run}"));
+    }
+}
+
+/// Everything a replica reports, for the comparison between replicas.
+fn full_report(y: &State, groups: &[char]) -> Vec<(char, MView, BTreeMap<(bool, char), (i64, u8)>, BTreeMap<char, (i64, u8)>)> {
+    groups
+        .iter()
+        .map(|g| (*g, members_view(y, *g), root_view(y, *g), y.groups(*g).into_iter().map(|(m, a)| (m, access_proj(&a))).collect()))
+        .collect()
+}
+
+/// A larger history outside the specified fragment (nested groups, conditions), generated by
+/// actors with diverging replicas and then delivered to `orders` fresh replicas, each in its own
+/// random causal order. Oracle 1 only.
+fn wild_run(run: usize, rng: &mut Rng, orders: usize, out: &mut Outcome) {
+    let conds = run % 2 == 1;
+    let nested = run % 4 >= 2;
+    let individuals: Vec<char> = "abcdefgh".chars().take(rng.range(4, 8) as usize).collect();
+    let groups: Vec<char> = if nested { vec![G, 'P', 'Q'] } else { vec![G] };
+    let mut ops: Vec<VOp> = Vec::new();
+    let mut gens: Vec<(State, BTreeSet<u32>)> = (0..3).map(|_| (Crdt::init(), BTreeSet::new())).collect();
+    let case = |ops: &Vec<VOp>| json!({"kind": "wild", "run": run, "ops": ops});
+    // creates: root by 'a', sub-groups by 'b' and 'c' (each its own manager)
+    for (gi, g) in groups.iter().enumerate() {
+        let creator = individuals[gi.min(individuals.len() - 1)];
+        let mut initial = vec![(GroupMember::Individual(creator), access(-1, 3))];
+        if gi == 0 {
+            for m in individuals.iter().skip(1).take(rng.range(1, 3) as usize) {
+                let (c, l) = if rng.chance(1, 2) { (-1, 3) } else { random_access(rng, conds) };
+                initial.push((GroupMember::Individual(*m), access(c, l)));
+            }
+        }
+        let mut deps = gens[0].0.heads();
+        deps.sort();
+        let op = VOp { id: ops.len() as u32 + 1, author: creator, deps, group: *g, action: GroupAction::Create { initial_members: initial } };
+        match process(&gens[0].0, &op) {
+            Ok(Ok(y)) => { gens[0].0 = y; gens[0].1.insert(op.id); ops.push(op); }
+            Ok(Err(e)) => { viol(out, "C33", "valid-operation-rejected", format!("create refused: {e}"), case(&ops)); return; }
+            Err(p) => { viol(out, "C33", "process-panics", p, case(&ops)); return; }
+        }
+    }
+    let target = rng.range(8, 22) as usize;
+    let mut guard = 0;
+    while ops.len() < target && guard < 400 {
+        guard += 1;
+        let gi = rng.below(3) as usize;
+        // sync: bring this generator replica up to date with a random subset of what exists
+        if rng.chance(1, 3) || gens[gi].1.is_empty() {
+            loop {
+                let ready: Vec<usize> = (0..ops.len()).filter(|j| !gens[gi].1.contains(&ops[*j].id) && ops[*j].deps.iter().all(|d| gens[gi].1.contains(d))).collect();
+                if ready.is_empty() || (rng.chance(1, 4) && gens[gi].1.len() >= groups.len()) { break; }
+                let op = ops[*rng.pick(&ready)].clone();
+                match process(&gens[gi].0, &op) {
+                    Ok(Ok(y)) => { gens[gi].0 = y; gens[gi].1.insert(op.id); }
+                    Ok(Err(e)) => { viol(out, "C31", "verdicts-differ", format!("op {} accepted by its publisher, refused by another replica: {e}", op.id), case(&ops)); return; }
+                    Err(p) => { viol(out, "C33", "process-panics", p, case(&ops)); return; }
+                }
+            }
+            continue;
+        }
+        let known: Vec<char> = groups.iter().copied().filter(|g| gens[gi].0.has_group(*g)).collect();
+        if known.is_empty() { continue; }
+        let group = *rng.pick(&known);
+        let roots = gens[gi].0.root_members(group);
+        let managers: Vec<char> = roots.iter().filter(|(m, a)| m.is_individual() && a.is_manage()).map(|(m, _)| m.id()).collect();
+        if managers.is_empty() { continue; }
+        let author = *rng.pick(&managers);
+        let kind = *rng.pick(&["add", "add", "remove", "promote", "demote"]);
+        let mut candidates: Vec<GroupMember<char>> = individuals.iter().map(|m| GroupMember::Individual(*m)).collect();
+        for g in &groups { if *g != group && *g != G { candidates.push(GroupMember::Group(*g)); } }
+        let inside: Vec<GroupMember<char>> = roots.iter().map(|(m, _)| *m).collect();
+        let member = if kind == "add" {
+            let outside: Vec<GroupMember<char>> = candidates.iter().copied().filter(|m| !inside.contains(m)).collect();
+            if outside.is_empty() { continue; }
+            *rng.pick(&outside)
+        } else {
+            *rng.pick(&inside)
+        };
+        let (c, mut l) = random_access(rng, conds);
+        if member.is_group() && l == 3 { l = 2; }
+        let action = match kind {
+            "add" => GroupAction::Add { member, access: access(c, l) },
+            "remove" => GroupAction::Remove { member },
+            "promote" => GroupAction::Promote { member, access: access(c, l) },
+            _ => GroupAction::Demote { member, access: access(c, l) },
+        };
+        let mut deps = gens[gi].0.heads();
+        deps.sort();
+        let op = VOp { id: ops.len() as u32 + 1, author, deps, group, action };
+        match process(&gens[gi].0, &op) {
+            Ok(Ok(y)) => { gens[gi].0 = y; gens[gi].1.insert(op.id); ops.push(op); }
+            Ok(Err(_)) => { out.count("wild_attempt_refused"); } // e.g. a nesting cycle
+            Err(p) => { viol(out, "C33", "process-panics", format!("{op:?}: {p}"), case(&ops)); return; }
+        }
+    }
+    out.count_by("wild_ops", ops.len() as u64);
+    // deliver to fresh replicas, each in its own random causal order
+    let mut reference: Option<(Vec<u32>, _)> = None;
+    for _ in 0..orders {
+        out.eval();
+        let mut y = Crdt::init();
+        let mut done: BTreeSet<u32> = BTreeSet::new();
+        let mut order = Vec::new();
+        while done.len() < ops.len() {
+            let ready: Vec<usize> = (0..ops.len()).filter(|j| !done.contains(&ops[*j].id) && ops[*j].deps.iter().all(|d| done.contains(d))).collect();
+            let op = &ops[*rng.pick(&ready)];
+            match process(&y, op) {
+                Ok(Ok(next)) => y = next,
+                Ok(Err(e)) => { viol(out, "C31", "verdicts-differ", format!("op {} accepted by its publisher, refused after {order:?}: {e}", op.id), case(&ops)); return; }
+                Err(p) => { viol(out, "C33", "process-panics", format!("op {} after {order:?}: {p}", op.id), case(&ops)); return; }
+            }
+            done.insert(op.id);
+            order.push(op.id);
+        }
+        let report = match catch(|| { let r1 = full_report(&y, &groups); let r2 = full_report(&y, &groups); let r3 = full_report(&y, &groups); (r1, r2, r3) }) {
+            Ok(r) => r,
+            Err(p) => { viol(out, "C31", "query-panics", p, case(&ops)); return; }
+        };
+        if report.0 != report.1 || report.0 != report.2 {
+            viol(out, "C31", if conds { "query-unstable:with-conditions" } else { "query-unstable" },
+                 format!("repeated queries on one replica (order {order:?}) differ: {:?} / {:?} / {:?}", report.0, report.1, report.2), case(&ops));
+            return;
+        }
+        match &reference {
+            None => reference = Some((order, report.0)),
+            Some((o0, r0)) if r0 != &report.0 => {
+                viol(out, "C31", if conds { "replicas-diverge:with-conditions" } else { "replicas-diverge" },
+                     format!("same operations, order {o0:?} gives {r0:?}, order {order:?} gives {:?}", report.0), case(&ops));
+                return;
+            }
+            _ => {}
+        }
+    }
+    out.mark_distinct(format!("wild-{run}"));
+    if run < 2 { out.sample(json!({"wild_ops": ops.len(), "orders": orders, "nested": nested, "conditions": conds})); }
+}
+
+fn record(args: &Args) {
+    let mut rng = Rng::new(args.seed);
+    let n = if args.n > 0 { args.n } else { 60 };
+    let mut trace = TraceWriter::create(args.out.as_ref().expect("--out"));
+    let mut out = Outcome::new(
+        args,
+        "seeded random histories on the real GroupCrdt: (a) traced runs in the specified fragment (3 replicas, 4-6 actors, \
+         authorized and unauthorized attempts, every replica delivering in its own causal order; one event per process call), \
+         (b) larger histories with nested groups and conditions (8-22 operations) delivered to 20 fresh replicas in random \
+         causal orders and compared replica-vs-replica and query-vs-query; non-trivial = run with merges/concurrency",
+    );
+    let orders = args.extra_usize("orders", 20);
+    for run in 0..n {
+        traced_run(run, &mut rng, &mut trace, &mut out);
+    }
+    let wild = args.extra_usize("wild", n);
+    for run in 0..wild {
+        wild_run(run, &mut rng, orders, &mut out);
+    }
+    let (events, runs) = trace.finish();
+    out.set_trace(events, runs);
+    out.write(args);
 }
